@@ -97,8 +97,10 @@ def run(ctx):
             c["levels"][str(s)] = lv
             c["trial"][str(s)] = [x for l in lv for x in (l - eps, l, l + eps)]
         c["want"] = ["stress"] if c["dim"] == 1 else []
-        if c["dim"] == 1:
+        if c["dim"] in (1, 2):
             c["probe"] = ["mesh", "quadrature"]
+        if c["dim"] == 2:
+            c["want"] = ["stress"]
     results = run_impl_parallel("struct_run", [to_impl(c, i) for i, c in enumerate(cases)], workers=14, timeout=2400)
     findings, known = [], []
     for i, (c, r) in enumerate(zip(cases, results)):
@@ -183,6 +185,38 @@ def run(ctx):
         m = cases[i]["material"]
         findings.append((cases[i], "%s/%s 1D%s: %s" % (m.get("name", m["kind"]), m.get("variant", ""), " forced sub-increments" if cases[i].get("substep") else "", msg)))
     ctx.oblige("corr/equilibrium-of-stored-stresses-1D (%d terms)" % len(eq_terms), "corr", not eq_fail, "%d terms fail" % len(eq_fail))
+    # the same for the 2D histories, any material: the stored stresses of every step balance the polygon pressure load in the
+    # bilinear-quadrilateral model, the reported force is the integral of s_zz
+    H2D = "From Coq Require Import QArith List.\nFrom SV Require Import model.TubeMech model.FE2D.\nImport ListNotations.\nOpen Scope Q_scope."
+    q2 = lambda v: q_lit(qfrac(v))
+    t2, o2 = [], []
+    for i, (c, r) in enumerate(zip(cases, results)):
+        if c["dim"] != 2 or r.get("outcome") != "ok" or "quadrature" not in r or "mesh" not in r:
+            continue
+        P, conn = arr(r["mesh"]["p"]), r["mesh"]["t"]
+        Xq, Wq = arr(r["quadrature"]["points"]), np.ravel(arr(r["quadrature"]["weights"]))
+        vl = lambda pts: "[" + "; ".join("(%s, %s)" % (q2(a), q2(b)) for a, b in pts) + "]"
+        nodes = vl(P)
+        connl = "[" + "; ".join("[" + "; ".join("%d%%nat" % n for n in el) + "]" for el in conn) + "]"
+        gs = "[" + "; ".join("mkG2 %s %s %s" % (q2(Xq[0][g]), q2(Xq[1][g]), q2(Wq[g])) for g in range(len(Wq))) + "]"
+        ring = vl(P[:c["nt"]])
+        area2 = c["nt"] / 2 * math.sin(2 * math.pi / c["nt"]) * (c["r"] ** 2 - (c["r"] - c["t"]) ** 2)
+        for k in range(1, len(c["times"])):
+            S = {n: arr(r["quad"]["stress" + n])[k] for n in ("_xx", "_yy", "_zz", "_xy")}
+            smax = float(max(np.max(np.abs(x)) for x in S.values())) + 1.0
+            ss = "[" + "; ".join("[" + "; ".join("mkS2 %s %s %s %s" % (q2(S["_xx"][e][g]), q2(S["_yy"][e][g]), q2(S["_zz"][e][g]), q2(S["_xy"][e][g]))
+                                                 for g in range(len(Wq))) + "]" for e in range(len(conn))) + "]"
+            ext = "(nodal_forces %s %s ++ repeat (0, 0) %d)" % (q2(c["pressure"][k]), ring, len(P) - c["nt"])
+            t2.append("small_vecs (1#1000000) %s (residual2 %s %s %s %s %s)" % (q2(smax * c["t"] / (c["nr"] - 1)), nodes, connl, gs, ss, ext))
+            o2.append((i, "step %d: the stored stresses do not balance the pressure load in the bilinear finite-element equations" % k))
+            t2.append("small (1#1000000000) %s (axial2 %s %s %s %s - %s)" % (q2(smax * area2 * 10), nodes, connl, gs, ss, q2(uv(r["force"][k]))))
+            o2.append((i, "step %d: the reported axial force is not the integral of s_zz over the stored stresses" % k))
+    f2 = coq_eval_cases("c11eq2", H2D, t2, shard=8) if t2 else []
+    for kk in f2:
+        i, msg = o2[kk]
+        m = cases[i]["material"]
+        findings.append((cases[i], "%s/%s 2D%s: %s" % (m.get("name", m["kind"]), m.get("variant", ""), " forced sub-increments" if cases[i].get("substep") else "", msg)))
+    ctx.oblige("corr/equilibrium-of-stored-stresses-2D (%d terms)" % len(t2), "corr", not f2, "%d terms fail" % len(f2))
     ctx.sample({"materials": sorted(set("%s/%s" % s for s in SHIPPED)), "cases": len(cases)})
     ctx.oblige("validated/difference-quotients (%d histories, 18 quotients each)" % len(cases), "validated", not findings, "%d failing checks" % len(findings))
     import os
